@@ -26,3 +26,22 @@ Theorem C08_band_write_in_buffer : forall r c w i j,
   Dtw.band_lo r c w i <= j < Dtw.band_hi r c w i ->
   0 <= j + 1 - eff_skip r c w i < Gen_dtw.py_dist_length r c w)%Z.
 Proof. exact dist_write_in_buffer. Qed.
+
+(* The row loop of the four C kernels, over band / offset / length regenerated from dd_dtw.c: the write
+   dtw[i1*length + j+1-skip] and the three reads of a band cell stay inside one row of the 2*length buffer. *)
+From DV Require Import CBand.
+
+Theorem C08_c_row_loop_accesses_in_buffer :
+  forall l1 l2 window i j, (1 <= window)%Z -> (1 <= l1)%Z -> (1 <= l2)%Z -> (0 <= i < l1)%Z ->
+  let maxj := cv_maxj c_dtw_distance_ldiff c_dtw_distance_dl c_dtw_distance_dl_window c_dtw_distance_maxj in
+  let minj := cv_minj c_dtw_distance_ldiff c_dtw_distance_ldiff_window c_dtw_distance_minj in
+  let skip := cv_skip c_dtw_distance_ldiff c_dtw_distance_dl c_dtw_distance_dl_window c_dtw_distance_maxj
+                      c_dtw_distance_skip c_dtw_distance_length in
+  let length := cv_length c_dtw_distance_ldiff c_dtw_distance_length in
+  (maxj l1 l2 window i <= j < minj l1 l2 window i ->
+   0 <= j - skip l1 l2 window i /\ j + 1 - skip l1 l2 window i < length l1 l2 window /\
+   (1 <= i -> 0 <= j - skip l1 l2 window (i - 1) /\ j + 1 - skip l1 l2 window (i - 1) < length l1 l2 window))%Z.
+Proof.
+  intros l1 l2 window i j Hw H1 H2 Hi. cbv zeta. intros Hj.
+  apply (c_row_accesses_in_buffer _ _ _ _ c_band_dtw_distance l1 l2 window i j); assumption.
+Qed.
